@@ -12,6 +12,16 @@
    payload is observable in tmap.c).  The rounding mode is the default one (FE_TONEAREST); the
    development is not about programs that call fesetround.
 
+   Sections: 1 the C's operations; 2 round() = Flocq's ZnearestA = the model's Qround_haz; 3 the
+   binary64 operations return RN of the exact result (no overflow under the stated bounds);
+   4-5 error of RN (dk * RN (dt / ds)) and fp_interp_k against interp_k (guards 2^53 / 2^51);
+   6-9 interp_i64 and the two conversion functions: within one, within one tick, anchors exact,
+   between the anchors, monotone; 10 a realistic map; 11 C and exact model differ at ties
+   (replayed on the real C); 12 the single-entry rules; 13 round trip in binary64;
+   14 the same without the exactness guards (five roundings, guard 2^49).
+   The functions fp_* are computable: the examples run Flocq's operations by vm_compute, and
+   fp_model_matches_C records outputs of the real C that the model reproduces.
+
    Everything here is closed (no hypothesis about the arithmetic); the axioms are the classical
    real numbers of the Coq standard library, on which Flocq is built. *)
 From Coq Require Import ZArith Reals QArith Qreals Qabs List Bool Lia Lra Psatz.
@@ -1703,4 +1713,286 @@ Lemma fp_ex_map_slope : forall i, (i + 1 < length (tm_entries fp_ex_map))%nat ->
 Proof.
   intros i Hi. change (length (tm_entries fp_ex_map)) with 3%nat in Hi.
   destruct i as [|[|i]]; [apply Z.leb_le; vm_compute; reflexivity|apply Z.leb_le; vm_compute; reflexivity|lia].
+Qed.
+
+(* ====================================================================================== *)
+(* 14. without the exactness guards: any int64 differences, five roundings                  *)
+(* ====================================================================================== *)
+Local Open Scope R_scope.
+
+Lemma uprime_le_u : u64 / (1 + u64) <= u64.
+Proof.
+  pose proof u64_pos as Hu. apply Rmult_le_reg_r with (1 + u64); [lra|].
+  unfold Rdiv. rewrite Rmult_assoc, Rinv_l by lra. nra.
+Qed.
+
+(* (double) n for any 64-bit integer: relative error at most u (never subnormal, never overflows) *)
+Lemma RN_IZR_rel : forall n : Z, exists eps, Rabs eps <= u64 /\ RN (IZR n) = IZR n * (1 + eps).
+Proof.
+  intros n. pose proof uprime_le_u as Hv.
+  destruct (Z.eq_dec n 0) as [->|Hn].
+  - exists 0. rewrite RN_0, Rabs_R0. split; [apply Rlt_le, u64_pos|ring].
+  - destruct (RN_rel (IZR n)) as [eps [H1 H2]].
+    + apply Rle_trans with (bpow radix2 0); [apply bpow_le; lia|]. cbn [bpow]. apply IZR_abs_ge1. exact Hn.
+    + exists eps. split; [lra|exact H2].
+Qed.
+
+Lemma five_roundings : forall e1 e2 e3 e4 e5 : R,
+  Rabs e1 <= u64 -> Rabs e2 <= u64 -> Rabs e3 <= u64 -> Rabs e4 <= u64 -> Rabs e5 <= u64 ->
+  Rabs ((1 + e1) * (1 + e2) * (1 + e3) * (1 + e4) / (1 + e5) - 1) <= 6 * u64.
+Proof.
+  intros e1 e2 e3 e4 e5 H1 H2 H3 H4 H5.
+  pose proof u64_pos as Hu. pose proof u64_lt as Hu1.
+  apply Rabs_le_inv in H1. apply Rabs_le_inv in H2. apply Rabs_le_inv in H3. apply Rabs_le_inv in H4. apply Rabs_le_inv in H5.
+  set (u := u64) in *.
+  assert (A12u : (1 + e1) * (1 + e2) <= (1 + u) * (1 + u)) by (apply Rmult_le_compat; lra).
+  assert (A12l : (1 - u) * (1 - u) <= (1 + e1) * (1 + e2)) by (apply Rmult_le_compat; lra).
+  assert (A12p : 0 <= (1 + e1) * (1 + e2)) by (apply Rmult_le_pos; lra).
+  assert (A123u : (1 + e1) * (1 + e2) * (1 + e3) <= (1 + u) * (1 + u) * (1 + u)) by (apply Rmult_le_compat; lra).
+  assert (Q2 : 0 <= (1 - u) * (1 - u)) by (apply Rmult_le_pos; lra).
+  assert (A123l : (1 - u) * (1 - u) * (1 - u) <= (1 + e1) * (1 + e2) * (1 + e3)) by (apply Rmult_le_compat; lra).
+  assert (A123p : 0 <= (1 + e1) * (1 + e2) * (1 + e3)) by (apply Rmult_le_pos; lra).
+  assert (Pu : (1 + e1) * (1 + e2) * (1 + e3) * (1 + e4) <= (1 + u) * (1 + u) * (1 + u) * (1 + u)) by (apply Rmult_le_compat; lra).
+  assert (Q3 : 0 <= (1 - u) * (1 - u) * (1 - u)) by (apply Rmult_le_pos; lra).
+  assert (Pl : (1 - u) * (1 - u) * (1 - u) * (1 - u) <= (1 + e1) * (1 + e2) * (1 + e3) * (1 + e4)) by (apply Rmult_le_compat; lra).
+  set (P4 := (1 + e1) * (1 + e2) * (1 + e3) * (1 + e4)) in *.
+  assert (U : (1 + u) * (1 + u) * (1 + u) * (1 + u) <= (1 + 6 * u) * (1 - u)) by nra.
+  assert (L : (1 - 6 * u) * (1 + u) <= (1 - u) * (1 - u) * (1 - u) * (1 - u)) by nra.
+  assert (D : 0 < 1 + e5) by lra.
+  assert (Hup : P4 <= (1 + 6 * u) * (1 + e5)) by nra.
+  assert (Hlo : (1 - 6 * u) * (1 + e5) <= P4) by nra.
+  replace (P4 / (1 + e5) - 1) with ((P4 - (1 + e5)) / (1 + e5)) by (field; lra).
+  apply Rabs_le. split.
+  - apply Rmult_le_reg_r with (1 + e5); [exact D|]. unfold Rdiv. rewrite Rmult_assoc, Rinv_l by lra. lra.
+  - apply Rmult_le_reg_r with (1 + e5); [exact D|]. unfold Rdiv. rewrite Rmult_assoc, Rinv_l by lra. lra.
+Qed.
+
+Section GeneralK.
+Variables dk ds dt : Z.
+Hypothesis Hk : (Z.abs dk <= 2 ^ 63)%Z.
+Hypothesis Hs : (Z.abs ds <= 2 ^ 63)%Z.
+Hypothesis Ht : (Z.abs dt <= 2 ^ 63)%Z.
+Hypothesis Hs0 : ds <> 0%Z.
+Hypothesis Hmag : (Z.abs (dk * dt) <= 2 ^ 49 * Z.abs ds)%Z.
+
+Let e : R := IZR dk * (IZR dt / IZR ds).
+(* the value before round(): the three conversions are rounded too *)
+Let c : R := RN (RN (IZR dk) * RN (RN (IZR dt) / RN (IZR ds))).
+
+Lemma RN_IZR_bounds : forall n : Z, (Z.abs n <= 2 ^ 63)%Z ->
+  Rabs (RN (IZR n)) <= bpow radix2 63 /\ (n <> 0%Z -> 1 <= Rabs (RN (IZR n))).
+Proof.
+  intros n Hn. split.
+  - apply RN_abs_le_bpow; [lia|]. rewrite (bpow_IZR 63) by lia. apply IZR_abs_le. exact Hn.
+  - intros H0. change 1 with (bpow radix2 0). apply RN_abs_ge_bpow; [lia|]. cbn [bpow]. apply IZR_abs_ge1. exact H0.
+Qed.
+
+Lemma gk_err : Rabs (c - e) <= Rabs e * (6 * u64).
+Proof.
+  pose proof u64_pos as Hu. pose proof u64_lt as Hu1.
+  destruct (Z.eq_dec dt 0) as [Zt|Zt].
+  { unfold c, e. rewrite Zt. rewrite RN_0. unfold Rdiv. rewrite !Rmult_0_l, RN_0, Rmult_0_r, RN_0, Rmult_0_r, Rminus_0_r, Rabs_R0. lra. }
+  destruct (Z.eq_dec dk 0) as [Zk|Zk].
+  { unfold c, e. rewrite Zk. rewrite RN_0, !Rmult_0_l, RN_0, Rminus_0_r, Rabs_R0. lra. }
+  destruct (RN_IZR_rel dk) as [ea [Ea Ra]]. destruct (RN_IZR_rel dt) as [et [Et Rt]]. destruct (RN_IZR_rel ds) as [es [Es Rs]].
+  destruct (RN_IZR_bounds dk Hk) as [Bk Lk]. destruct (RN_IZR_bounds dt Ht) as [Bt Lt]. destruct (RN_IZR_bounds ds Hs) as [Bs Ls].
+  specialize (Lk Zk). specialize (Lt Zt). specialize (Ls Hs0).
+  assert (Hz : IZR ds <> 0) by (apply not_0_IZR; exact Hs0).
+  assert (Hsz : RN (IZR ds) <> 0) by (intro H0; rewrite H0, Rabs_R0 in Ls; lra).
+  (* the quotient is normal *)
+  assert (P63 : 0 < bpow radix2 63) by apply bpow_gt_0.
+  assert (Hq : bpow radix2 (-63) <= Rabs (RN (IZR dt) / RN (IZR ds))).
+  { unfold Rdiv. rewrite Rabs_mult, Rabs_inv.
+    assert (/ bpow radix2 63 <= / Rabs (RN (IZR ds))) by (apply Rinv_le_contravar; lra).
+    change (-63)%Z with (Z.opp 63). rewrite bpow_opp.
+    assert (0 < / bpow radix2 63) by (apply Rinv_0_lt_compat; exact P63). nra. }
+  destruct (RN_rel (RN (IZR dt) / RN (IZR ds))) as [e1 [E1 R1]].
+  { eapply Rle_trans; [|exact Hq]. apply bpow_le. lia. }
+  pose proof uprime_le_u as Hv.
+  assert (Hq2 : bpow radix2 (-64) <= Rabs (RN (RN (IZR dt) / RN (IZR ds)))).
+  { apply RN_abs_ge_bpow; [lia|]. eapply Rle_trans; [|exact Hq]. apply bpow_le. lia. }
+  assert (Hp : bpow radix2 (-1022) <= Rabs (RN (IZR dk) * RN (RN (IZR dt) / RN (IZR ds)))).
+  { rewrite Rabs_mult. apply Rle_trans with (1 * bpow radix2 (-64)); [rewrite Rmult_1_l; apply bpow_le; lia|].
+    apply Rmult_le_compat; [lra|apply bpow_ge_0|exact Lk|exact Hq2]. }
+  destruct (RN_rel _ Hp) as [e2 [E2 R2]].
+  unfold c. rewrite R2, R1, Ra, Rt, Rs.
+  assert (Des : 0 < 1 + es) by (apply Rabs_le_inv in Es; lra).
+  replace (IZR dk * (1 + ea) * (IZR dt * (1 + et) / (IZR ds * (1 + es)) * (1 + e1)) * (1 + e2) - e)
+    with (e * ((1 + ea) * (1 + et) * (1 + e1) * (1 + e2) / (1 + es) - 1)) by (unfold e; field; split; lra).
+  rewrite Rabs_mult. apply Rmult_le_compat_l; [apply Rabs_pos|].
+  apply five_roundings; lra.
+Qed.
+
+Lemma gk_e_bound : Rabs e <= IZR (2 ^ 49).
+Proof. apply exact_bound_R; assumption. Qed.
+
+Lemma gk_err_38 : Rabs (c - e) <= 3 / 8.
+Proof.
+  pose proof gk_err as H. pose proof gk_e_bound as Hb. pose proof u64_pos as Hu.
+  assert (E : IZR (2 ^ 49) * (6 * u64) = 3 / 8).
+  { rewrite u64_val. replace (IZR (2 ^ 53)) with (16 * IZR (2 ^ 49)) by (rewrite <- mult_IZR; reflexivity).
+    field. apply not_0_IZR. discriminate. }
+  assert (Rabs e * (6 * u64) <= IZR (2 ^ 49) * (6 * u64)) by (apply Rmult_le_compat_r; lra).
+  lra.
+Qed.
+
+Lemma gk_value : fp_interp_k dk ds dt = TmOk (ZnearestA c).
+Proof.
+  unfold fp_interp_k.
+  destruct (b64_of_Z_RN dk ltac:(lia)) as [Vk Fk]. destruct (b64_of_Z_RN ds ltac:(lia)) as [Vs Fs].
+  destruct (b64_of_Z_RN dt ltac:(lia)) as [Vt Ft].
+  destruct (RN_IZR_bounds dk Hk) as [Bk _]. destruct (RN_IZR_bounds dt Ht) as [Bt _]. destruct (RN_IZR_bounds ds Hs) as [Bs Ls].
+  specialize (Ls Hs0).
+  assert (Hsz : RN (IZR ds) <> 0) by (intro H0; rewrite H0, Rabs_R0 in Ls; lra).
+  assert (Bq : Rabs (RN (IZR dt) / RN (IZR ds)) <= bpow radix2 63).
+  { unfold Rdiv. rewrite Rabs_mult, Rabs_inv.
+    assert (0 < / Rabs (RN (IZR ds)) <= 1) by (split; [apply Rinv_0_lt_compat; lra|rewrite <- Rinv_1; apply Rinv_le_contravar; lra]).
+    pose proof (Rabs_pos (RN (IZR dt))). nra. }
+  destruct (b64_div_RN (b64_of_Z dt) (b64_of_Z ds)) as [Vq Fq].
+  { rewrite Vs. exact Hsz. } { exact Ft. }
+  { rewrite Vt, Vs. eapply Rle_trans; [exact Bq|]. apply bpow_le. lia. }
+  rewrite Vt, Vs in Vq.
+  assert (Bq2 : Rabs (RN (RN (IZR dt) / RN (IZR ds))) <= bpow radix2 63) by (apply RN_abs_le_bpow; [lia|exact Bq]).
+  destruct (b64_mul_RN (b64_of_Z dk) (b64_div (b64_of_Z dt) (b64_of_Z ds)) Fk Fq) as [Vp Fp].
+  { rewrite Vk, Vq, Rabs_mult. apply Rle_trans with (bpow radix2 63 * bpow radix2 63).
+    - apply Rmult_le_compat; try apply Rabs_pos; assumption.
+    - rewrite <- bpow_plus. apply bpow_le. lia. }
+  rewrite Vk, Vq in Vp. fold c in Vp.
+  destruct (b64_round_to_Z _ Fp) as [Fr Vr]. rewrite Vp in Vr.
+  unfold b64_to_i64. rewrite Fr, Vr.
+  replace (in64 (ZnearestA c)) with true; [reflexivity|].
+  symmetry. apply in64_true.
+  pose proof gk_err_38 as He. pose proof gk_e_bound as Hb.
+  pose proof (Znearest_half (Zle_bool 0) c) as Hn.
+  apply Rabs_le_inv in He. apply Rabs_le_inv in Hb. apply Rabs_le_inv in Hn.
+  assert (H1 : IZR (- 2 ^ 49 - 1) < IZR (ZnearestA c) < IZR (2 ^ 49 + 1)).
+  { rewrite minus_IZR, plus_IZR, opp_IZR. lra. }
+  destruct H1 as [H1 H2]. apply lt_IZR in H1. apply lt_IZR in H2. lia.
+Qed.
+
+Lemma gk_within_one : (-1 <= ZnearestA c - interp_k dk ds dt <= 1)%Z.
+Proof.
+  rewrite interp_k_R by exact Hs0. fold e. apply ZnearestA_close.
+  pose proof gk_err_38. lra.
+Qed.
+
+Lemma gk_dist_lt1 : Rabs (IZR (ZnearestA c) - e) < 1.
+Proof.
+  pose proof gk_err_38 as H. pose proof (Znearest_half (Zle_bool 0) c) as Hn.
+  replace (IZR (ZnearestA c) - e) with (- (c - IZR (ZnearestA c)) + (c - e)) by ring.
+  eapply Rle_lt_trans; [apply Rabs_triang|]. rewrite Rabs_Ropp. lra.
+Qed.
+
+Lemma gk_exact_int : forall n : Z, (dk * dt = n * ds)%Z -> ZnearestA c = n /\ interp_k dk ds dt = n.
+Proof.
+  intros n Hn.
+  assert (Hz : IZR ds <> 0) by (apply not_0_IZR; exact Hs0).
+  assert (He : e = IZR n).
+  { unfold e. replace (IZR dk * (IZR dt / IZR ds)) with (IZR (dk * dt) / IZR ds) by (rewrite mult_IZR; field; exact Hz).
+    rewrite Hn, mult_IZR. field. exact Hz. }
+  split.
+  - apply ZnearestA_int. rewrite <- He. pose proof gk_err_38. lra.
+  - rewrite interp_k_R by exact Hs0. fold e. rewrite He. apply ZnearestA_int.
+    rewrite Rminus_diag_eq by reflexivity. rewrite Rabs_R0. lra.
+Qed.
+End GeneralK.
+
+(* any three int64 differences (their conversion to double may round): only the magnitude of the
+   exact offset is guarded, at 2^49 *)
+Theorem fp_interp_k_general : forall dk ds dt : Z,
+  (Z.abs dk <= 2 ^ 63)%Z -> (Z.abs ds <= 2 ^ 63)%Z -> (Z.abs dt <= 2 ^ 63)%Z -> ds <> 0%Z ->
+  (Z.abs (dk * dt) <= 2 ^ 49 * Z.abs ds)%Z ->
+  exists kf : Z,
+    fp_interp_k dk ds dt = TmOk kf /\
+    (-1 <= kf - interp_k dk ds dt <= 1)%Z /\
+    (Qabs (inject_Z kf - inject_Z dk * (inject_Z dt / inject_Z ds)) < 1)%Q /\
+    (forall n : Z, (dk * dt = n * ds)%Z -> kf = n /\ interp_k dk ds dt = n).
+Proof.
+  intros dk ds dt Hk Hs Ht Hs0 Hm.
+  eexists. split; [exact (gk_value dk ds dt Hk Hs Ht Hs0 Hm)|].
+  split; [exact (gk_within_one dk ds dt Hk Hs Ht Hs0 Hm)|].
+  split.
+  - fold (exactQ dk ds dt). apply Rlt_Qlt. rewrite Q2R_Qabs, Q2R_minus, Q2R_inject_Z, Q2R_exactQ by exact Hs0.
+    replace (Q2R 1) with 1 by (unfold Q2R; cbn; lra).
+    exact (gk_dist_lt1 dk ds dt Hk Hs Ht Hs0 Hm).
+  - intros n Hn. exact (gk_exact_int dk ds dt Hk Hs Ht Hs0 Hm n Hn).
+Qed.
+
+Local Open Scope Z_scope.
+
+(* the guard without exactness: the three differences fit int64 (else the C itself is undefined),
+   the exact offset is at most 2^49 in magnitude, the anchor leaves room *)
+Definition fp_guard_general (xs ys : list Z) (c : nat) (q : Z) : Prop :=
+  in64 (q - nth c xs 0) = true /\
+  in64 (nth (S c) xs 0 - nth c xs 0) = true /\
+  in64 (nth (S c) ys 0 - nth c ys 0) = true /\
+  Z.abs ((q - nth c xs 0) * (nth (S c) ys 0 - nth c ys 0)) <= 2 ^ 49 * Z.abs (nth (S c) xs 0 - nth c xs 0) /\
+  Z.abs (nth c ys 0) <= 2 ^ 62.
+
+Lemma in64_abs : forall v, in64 v = true -> Z.abs v <= 2 ^ 63.
+Proof. intros v H. apply in64_true in H. lia. Qed.
+
+Theorem fp_interp_at_general : forall xs ys c q, fp_guard_general xs ys c q ->
+  exists v v' : Z,
+    interp_at xs ys c q = TmOk v /\ fp_interp_at xs ys c q = TmOk v' /\
+    -1 <= v' - v <= 1 /\
+    (forall n : Z, (q - nth c xs 0) * (nth (S c) ys 0 - nth c ys 0) = n * (nth (S c) xs 0 - nth c xs 0) ->
+       nth (S c) xs 0 - nth c xs 0 <> 0 -> v' = nth c ys 0 + n /\ v = nth c ys 0 + n).
+Proof.
+  intros xs ys c q [G1 [G2 [G3 [G4 G5]]]].
+  set (dk := q - nth c xs 0) in *. set (ds := nth (S c) xs 0 - nth c xs 0) in *. set (dt := nth (S c) ys 0 - nth c ys 0) in *.
+  pose proof (in64_abs _ G1) as A1. pose proof (in64_abs _ G2) as A2. pose proof (in64_abs _ G3) as A3.
+  destruct (Z.eq_dec ds 0) as [Hz|Hnz].
+  - exists (nth c ys 0), (nth c ys 0).
+    unfold interp_at, fp_interp_at. cbv zeta. fold dk ds dt. rewrite G1, G2, G3. cbn [andb negb].
+    rewrite b64_eq0_of_Z by lia. rewrite Hz. cbn [Z.eqb].
+    split; [reflexivity|]. split; [reflexivity|]. split; [lia|]. intros n _ H. contradiction.
+  - pose proof (gk_within_one dk ds dt A1 A2 A3 Hnz G4) as W.
+    assert (Kb : Z.abs (interp_k dk ds dt) <= 2 ^ 51).
+    { apply interp_k_bound; [exact Hnz|]. lia. }
+    eexists. eexists.
+    split; [|split; [|split]].
+    + unfold interp_at. cbv zeta. fold dk ds dt. rewrite G1, G2, G3. cbn [andb negb].
+      replace (ds =? 0) with false by (symmetry; apply Z.eqb_neq; exact Hnz).
+      rewrite (in64_of_abs (interp_k dk ds dt)), (in64_of_abs (nth c ys 0 + interp_k dk ds dt)) by lia. reflexivity.
+    + unfold fp_interp_at. cbv zeta. fold dk ds dt. rewrite G1, G2, G3. cbn [andb negb].
+      rewrite b64_eq0_of_Z by lia.
+      replace (ds =? 0) with false by (symmetry; apply Z.eqb_neq; exact Hnz).
+      rewrite (gk_value dk ds dt A1 A2 A3 Hnz G4).
+      rewrite in64_of_abs by lia. reflexivity.
+    + lia.
+    + intros n Hn _. destruct (gk_exact_int dk ds dt A1 A2 A3 Hnz G4 n Hn) as [E1 E2].
+      rewrite E1, E2. split; reflexivity.
+Qed.
+
+Theorem fp_tmap_within_one_general : forall (rate : b64) (t : tmap) (q : Z), (2 <= length (tm_entries t))%nat ->
+  ((forall c, search (ids t) q = TmOk c -> fp_guard_general (ids t) (times t) c q) ->
+   exists v v' : Z, tmap_sample_id_to_timestamp t q = QVal v /\
+     fp_tmap_sample_id_to_timestamp rate t q = QVal v' /\ -1 <= v' - v <= 1) /\
+  ((forall c, search (times t) q = TmOk c -> fp_guard_general (times t) (ids t) c q) ->
+   exists v v' : Z, tmap_timestamp_to_sample_id t q = QVal v /\
+     fp_tmap_timestamp_to_sample_id rate t q = QVal v' /\ -1 <= v' - v <= 1).
+Proof.
+  intros rate t q Hl. destruct (tmap_multi rate t q Hl) as [E1 [E2 [E3 E4]]].
+  split; intros Hg.
+  - destruct (search_total (ids t) q ltac:(rewrite ids_length; lia)) as [c [Hc _]].
+    destruct (fp_interp_at_general _ _ _ _ (Hg c Hc)) as [v [v' [A [B [C _]]]]].
+    exists v, v'. rewrite E1, E2. unfold interp, fp_interp. rewrite Hc, A, B. cbn [qres_of]. auto.
+  - destruct (search_total (times t) q ltac:(rewrite times_length; lia)) as [c [Hc _]].
+    destruct (fp_interp_at_general _ _ _ _ (Hg c Hc)) as [v [v' [A [B [C _]]]]].
+    exists v, v'. rewrite E3, E4. unfold interp, fp_interp. rewrite Hc, A, B. cbn [qres_of]. auto.
+Qed.
+
+(* a segment whose time difference 2^60 + 12345 is not a double (it needs 61 bits): the general
+   guard holds, fp_guard's exactness clause does not; C and exact model agree here *)
+Lemma fp_ex_general :
+  let xs := [0; 2 ^ 40] in let ys := [5; 5 + 2 ^ 60 + 12345] in
+  fp_guard_general xs ys 0 1000003 /\ ~ fp_guard xs ys 0 1000003 /\
+  fp_interp_at xs ys 0 1000003 = TmOk (5 + 1048579145728) /\ interp_at xs ys 0 1000003 = TmOk (5 + 1048579145728).
+Proof.
+  cbv zeta. split; [|split; [|split]].
+  - unfold fp_guard_general. cbn [nth]. repeat split; try (vm_compute; reflexivity); apply Z.leb_le; vm_compute; reflexivity.
+  - unfold fp_guard. cbn [nth]. intros [_ [_ [H _]]]. apply Z.leb_le in H. vm_compute in H. discriminate.
+  - vm_compute. reflexivity.
+  - vm_compute. reflexivity.
 Qed.
